@@ -17,7 +17,11 @@
 EXTENDS Naturals, Sequences, FiniteSets
 
 None == "None"
-Vals == {"str", "num", "zero", "empty", "none", "dots", "repr", "tag", "tfy", "list", "bad", "badlist"}
+\* dep: one HTMLDependency object displayed every time; depeq: an equal but distinct dependency each time;
+\* false (False), zerof (0.0), emptyhtml (HTML("")): falsy but valid; emptydict ({}), emptyset (set()): falsy and unsupported
+Vals == {"str", "num", "zero", "empty", "none", "dots", "repr", "tag", "tfy", "list", "bad", "badlist",
+         "dep", "depeq", "false", "zerof", "emptyhtml", "emptydict", "emptyset"}
+BadVals == {"bad", "badlist", "emptydict", "emptyset"}
 
 \* what append(value) stores, after the wrapper's case analysis (wrap_displayhook_handler)
 Stored(v) ==
@@ -29,6 +33,10 @@ Stored(v) ==
     [] v = "tag"   -> <<"t:other">>
     [] v = "tfy"   -> <<"f:obj">>
     [] v = "list"  -> <<"s:a", "s:1">>
+    [] v \in {"dep", "depeq"} -> <<"d:shared">>   \* every display appends, also of a dependency that is already a child
+    [] v = "false" -> <<"s:False">>
+    [] v = "zerof" -> <<"s:0.0">>
+    [] v = "emptyhtml" -> <<"h:">>
     [] OTHER       -> <<>>                 \* none, dots: ignored
 
 Active(s, t) == \E i \in 1..Len(s.stack) : s.stack[i].t = t
@@ -50,7 +58,7 @@ EnterF(s, t, g) ==
 \* an expression statement's value reaches sys.displayhook
 DisplayF(s, v) ==
   \* an unsupported value - alone, or after valid items inside a displayed list - is rejected as a whole
-  IF v \in {"bad", "badlist"} THEN [s EXCEPT !.exc = "TypeError"]
+  IF v \in BadVals THEN [s EXCEPT !.exc = "TypeError"]
   ELSE IF s.hook = "base" THEN (IF v \in {"none"} THEN s ELSE [s EXCEPT !.base = @ \o <<v>>])
   ELSE [s EXCEPT !.kids[s.hook] = @ \o Stored(v)]
 
